@@ -171,6 +171,10 @@ func solveAll(obls []*Obligation, dir string, jobs int, timeoutS int, thorough b
 				r.Output = err.Error()
 				return
 			}
+			timeoutS := timeoutS
+			if knownObl[o.Name] && timeoutS > 3 {
+				timeoutS = 3
+			}
 			r.Status = "unknown"
 			// ground core first: dropping the quantified assumptions only weakens the hypotheses, so unsat is a proof;
 			// it is decided in milliseconds where the full query costs seconds (the engine instantiates the
